@@ -82,6 +82,130 @@ Lemma build_inv : forall c t st0 st st' v,
   inv st0 st' /\ (length st <= length st')%nat /\ inr (length st0) (length st') v.
 Proof. intros c t st0 st st' v Hc. apply (build_inv_n c Hc (tsize t)). lia. Qed.
 
+(* ---- decidable equality on snapshots is equality -------------------------------------------------------------------- *)
+Definition items_eqb (l1 l2 : list (tree * tree)) : bool :=
+  (fix go (l1 l2 : list (tree * tree)) : bool :=
+     match l1, l2 with
+     | [], [] => true
+     | (a1, b1) :: t1, (a2, b2) :: t2 => tree_eqb a1 a2 && tree_eqb b1 b2 && go t1 t2
+     | _, _ => false
+     end) l1 l2.
+
+Lemma tree_eqb_node : forall k1 l1 k2 l2, tree_eqb (TNode k1 l1) (TNode k2 l2) = ((k1 =? k2)%Z && items_eqb l1 l2).
+Proof. reflexivity. Qed.
+Lemma items_eqb_cons : forall a1 b1 t1 a2 b2 t2,
+  items_eqb ((a1, b1) :: t1) ((a2, b2) :: t2) = (tree_eqb a1 a2 && tree_eqb b1 b2 && items_eqb t1 t2).
+Proof. reflexivity. Qed.
+
+Lemma str_eqb_refl : forall s, str_eqb s s = true.
+Proof. induction s as [|x t IH]; simpl; auto. rewrite Z.eqb_refl. exact IH. Qed.
+Lemma str_eqb_eq : forall a b, str_eqb a b = true -> a = b.
+Proof.
+  induction a as [|x t IH]; intros [|y u] H; simpl in H; try discriminate; auto.
+  apply andb_true_iff in H. destruct H as [A B]. apply Z.eqb_eq in A. subst. f_equal. auto.
+Qed.
+
+Lemma tree_eqb_refl_n : forall n t, (tsize t <= n)%nat -> tree_eqb t t = true.
+Proof.
+  induction n as [|n IH]; intros t Hn; [destruct t; simpl in Hn; lia|].
+  destruct t as [z|s| |k items|]; simpl; auto using Z.eqb_refl, str_eqb_refl.
+  change (((k =? k)%Z && items_eqb items items) = true). rewrite Z.eqb_refl. cbn [andb].
+  rewrite tsize_node in Hn. assert (Hi : (isize items <= n)%nat) by lia. clear Hn.
+  induction items as [|[a b] r IHr]; [reflexivity|].
+  rewrite isize_cons in Hi. rewrite items_eqb_cons. rewrite (IH a), (IH b) by lia. cbn [andb]. apply IHr. lia.
+Qed.
+Lemma tree_eqb_refl : forall t, tree_eqb t t = true.
+Proof. intros t. apply (tree_eqb_refl_n (tsize t)). lia. Qed.
+
+Lemma tree_eqb_eq_n : forall n a, (tsize a <= n)%nat -> forall b, tree_eqb a b = true -> a = b.
+Proof.
+  induction n as [|n IH]; intros a Hn b H; [destruct a; simpl in Hn; lia|].
+  destruct a as [z|s| |k items|]; destruct b as [z'|s'| |k' items'|]; simpl in H; try discriminate; auto.
+  - apply Z.eqb_eq in H. subst. reflexivity.
+  - apply str_eqb_eq in H. subst. reflexivity.
+  - change (((k =? k')%Z && items_eqb items items') = true) in H. apply andb_true_iff in H. destruct H as [A B].
+    apply Z.eqb_eq in A. subst k'. f_equal.
+    rewrite tsize_node in Hn. assert (Hi : (isize items <= n)%nat) by lia. clear Hn.
+    revert items' B. induction items as [|[a1 b1] r IHr]; intros [|[a2 b2] r'] B; try discriminate; auto.
+    rewrite isize_cons in Hi. rewrite items_eqb_cons in B.
+    apply andb_true_iff in B. destruct B as [B C]. apply andb_true_iff in B. destruct B as [B1 B2].
+    rewrite (IH a1 ltac:(lia) a2 B1), (IH b1 ltac:(lia) b2 B2). f_equal. apply IHr; auto. lia.
+Qed.
+Lemma tree_eqb_eq : forall a b, tree_eqb a b = true -> a = b.
+Proof. intros a b. apply (tree_eqb_eq_n (tsize a)). lia. Qed.
+
+
+(* ---- the sharing pass of the read models (DAG-shaped results) ---------------------------------------------------------- *)
+Lemma same_snapshots_sound : forall st a b, same_snapshots st a b = true ->
+  forall m, (m <= FUEL)%nat -> snap m st a = snap m st b.
+Proof.
+  intros st a b H m Hm. unfold same_snapshots in H. rewrite forallb_forall in H.
+  apply tree_eqb_eq. apply H. apply in_seq. lia.
+Qed.
+
+Definition pass_ok (st0 st st' : store) : Prop :=
+  inv st0 st' /\ length st' = length st /\ (forall n v, (n <= S FUEL)%nat -> snap n st' v = snap n st v).
+
+Lemma pass_ok_refl : forall st0 st, inv st0 st -> pass_ok st0 st st.
+Proof. intros. split; [assumption|]. split; [reflexivity|]. intros; reflexivity. Qed.
+
+Lemma pass_ok_trans : forall st0 a b c, pass_ok st0 a b -> pass_ok st0 b c -> pass_ok st0 a c.
+Proof.
+  intros st0 a b c (I1 & L1 & S1) (I2 & L2 & S2). split; [exact I2|]. split; [congruence|].
+  intros n v Hn. rewrite S2, S1 by assumption. reflexivity.
+Qed.
+
+Lemma share_nodes_ok : forall st0 hs ts st stack,
+  inv st0 st -> Forall (inr (length st0) (length st)) hs -> Forall (inr (length st0) (length st)) stack ->
+  pass_ok st0 st (share_nodes st hs ts stack).
+Proof.
+  intros st0. induction hs as [|h hr IH]; intros ts st stack Hinv Hhs Hst; [apply pass_ok_refl; exact Hinv|].
+  destruct ts as [|n tr]; [apply pass_ok_refl; exact Hinv|]. cbn [share_nodes].
+  inversion Hhs as [|? ? Hh Hhr]; subst.
+  destruct (node_is_style n); [|apply IH; auto].
+  destruct (is_true (tfield n 3)).
+  - apply IH; auto. constructor; [apply field_inr; auto|exact Hst].
+  - destruct stack as [|d rest]; [apply IH; auto; constructor|].
+    inversion Hst as [|? ? Hd Hrest]; subst. cbn [tl].
+    destruct (is_share (tfield n 2) && has_field st h (VInt 2) && same_snapshots st d (field st h (VInt 2))) eqn:G;
+      [|apply IH; auto].
+    apply andb_true_iff in G. destruct G as [G G3]. apply andb_true_iff in G. destruct G as [_ G2].
+    assert (Hstep : pass_ok st0 st (set_field st h (VInt 2) d)).
+    { split; [apply inv_set_field; auto; exact I|]. split; [apply length_set_field|].
+      intros m v Hm. apply (snap_set_field_same st h (VInt 2) d FUEL); auto.
+      - unfold has_field in G2. destruct (assoc (VInt 2) (items_of st h)); [exact I|discriminate].
+      - apply same_snapshots_sound. exact G3. }
+    eapply pass_ok_trans; [exact Hstep|]. destruct Hstep as (I1 & L1 & _).
+    apply IH; auto; rewrite L1; assumption.
+Qed.
+
+Lemma share_caps_ok : forall st0 hcs tcs st,
+  inv st0 st -> Forall (inr (length st0) (length st)) hcs -> pass_ok st0 st (share_caps st hcs tcs).
+Proof.
+  intros st0. induction hcs as [|hc hr IH]; intros tcs st Hinv Hh; [apply pass_ok_refl; exact Hinv|].
+  destruct tcs as [|tc tr]; [apply pass_ok_refl; exact Hinv|]. cbn [share_caps].
+  inversion Hh as [|? ? Hc Hr]; subst.
+  assert (Hstep : pass_ok st0 st (share_nodes st (elems st (field st hc (VInt 3))) (telems (tfield tc 3)) [])).
+  { apply share_nodes_ok; auto. apply elems_inr; auto. apply field_inr; auto. }
+  eapply pass_ok_trans; [exact Hstep|]. destruct Hstep as (I1 & L1 & _). apply IH; auto. rewrite L1. exact Hr.
+Qed.
+
+Lemma share_langs_ok : forall st0 hls tls st,
+  inv st0 st -> items_inr (length st0) (length st) hls -> pass_ok st0 st (share_langs st hls tls).
+Proof.
+  intros st0. induction hls as [|hkv hr IH]; intros tls st Hinv Hh; [apply pass_ok_refl; exact Hinv|].
+  destruct tls as [|tkv tr]; [apply pass_ok_refl; exact Hinv|]. cbn [share_langs].
+  inversion Hh as [|? ? [_ Hv] Hr]; subst.
+  assert (Hstep : pass_ok st0 st (share_caps st (elems st (snd hkv)) (telems (snd tkv)))).
+  { apply share_caps_ok; auto. apply elems_inr; auto. }
+  eapply pass_ok_trans; [exact Hstep|]. destruct Hstep as (I1 & L1 & _). apply IH; auto.
+  unfold items_inr in *. rewrite L1. exact Hr.
+Qed.
+
+Lemma share_set_ok : forall st0 st s t,
+  inv st0 st -> inr (length st0) (length st) s -> pass_ok st0 st (share_set st s t).
+Proof. intros. unfold share_set. apply share_langs_ok; auto. apply set_langs_inr; auto. Qed.
+
 (* ---- a read allocates a fresh closed region (after the repairs: no default-argument object, no stale stash) -------- *)
 Lemma scc_pre_inv : forall c st0 st cap st' p,
   fix2 c = true -> inv st0 st -> scc_pre c st cap = (st', p) ->
@@ -169,9 +293,10 @@ Proof.
       constructor; [split; exact I|constructor]. }
     destruct (inv_new_obj _ _ _ _ _ _ I5 H6 E6) as (I6 & V6 & L6).
     inversion H; subst. split; assumption.
-  - destruct (build (dflt c) (mark_defaults rk t) st) as [st1 s1] eqn:Eb.
+  - cbv zeta in H. destruct (build (dflt c) (unshare (mark_defaults rk t)) st) as [st1 s1] eqn:Eb.
     destruct (build_inv c _ st st st1 s1 Hc2 (inv_refl st) Eb) as (I1 & L1 & V1).
-    inversion H; subst. split; assumption.
+    destruct (share_set_ok st st1 s1 (mark_defaults rk t) I1 V1) as (I2 & L2 & _).
+    inversion H; subst. split; [exact I2|]. rewrite L2. exact V1.
 Qed.
 
 (* ---- regions --------------------------------------------------------------------------------------------------------- *)
@@ -816,15 +941,18 @@ Theorem snap_build : forall c t st st' v n,
   fix2 c = true -> build (dflt c) t st = (st', v) -> snap n st' v = clean_trunc n t.
 Proof. intros c t st st' v n Hc. apply (snap_build_n c Hc (tsize t)). lia. Qed.
 
-(* C10: for the five tree-building reader models the snapshot of the result is clean_trunc of (kind, document):
-   it does not depend on the store (what was read, written or edited before) nor on the reader object *)
+(* MODEL-ONLY: for the five build-based reader models the snapshot of the result (up to the depth to which the sharing
+   pass compares snapshots) is clean_trunc of the given result tree with the sharing markers resolved: it does not
+   depend on the store nor on the reader object *)
 Theorem read_result_function_of_document_partial : forall c rk ri t st st' ri' s n,
-  fix2 c = true -> (rk =? R_SCC)%Z = false -> read c rk ri t st = (st', ri', s) ->
-  snap n st' s = clean_trunc n (mark_defaults rk t).
+  fix2 c = true -> (rk =? R_SCC)%Z = false -> (n <= S FUEL)%nat -> read c rk ri t st = (st', ri', s) ->
+  snap n st' s = clean_trunc n (unshare (mark_defaults rk t)).
 Proof.
-  intros c rk ri t st st' ri' s n Hc Hk H. unfold read in H. rewrite Hk in H.
-  destruct (build (dflt c) (mark_defaults rk t) st) as [st1 s1] eqn:Eb. inversion H; subst.
-  eapply snap_build; eauto.
+  intros c rk ri t st st' ri' s n Hc Hk Hn H. unfold read in H. rewrite Hk in H. cbv zeta in H.
+  destruct (build (dflt c) (unshare (mark_defaults rk t)) st) as [st1 s1] eqn:Eb.
+  destruct (build_inv c _ st st st1 s1 Hc (inv_refl st) Eb) as (I1 & L1 & V1).
+  destruct (share_set_ok st st1 s1 (mark_defaults rk t) I1 V1) as (_ & _ & S2).
+  inversion H; subst. rewrite S2 by exact Hn. eapply snap_build; eauto.
 Qed.
 
 (* ---- every operation keeps the store well formed (needed to chain the write theorems through ANY history) ---------- *)
